@@ -117,3 +117,12 @@ func refSelfCheck() bool {
 	ok = ok && refDataCodewords(1, 0) == 19 && refDataCodewords(40, 0) == 2956 && refDataCodewords(40, 3) == 1276 && refDataCodewords(7, 3) == 66
 	return ok
 }
+
+// exported views for harnesses in other packages
+func VerifRefAlignmentCenters(ver int) []int { return refAlignmentCenters(ver) }
+func VerifRefFormatWord(lvlBits, mask int) int { return refFormatWord(lvlBits, mask) }
+func VerifRefVersionWord(ver int) int          { return refVersionWord(ver) }
+func VerifRefTotalCodewords(ver int) int       { return refTotalCodewords(ver) }
+func VerifRefECPerBlock(ver, lvl int) int      { return refECPerBlock[lvl][ver-1] }
+func VerifRefNumBlocks(ver, lvl int) int       { return refNumBlocks[lvl][ver-1] }
+func VerifRefSelfCheck() bool                  { return refSelfCheck() }
